@@ -316,4 +316,154 @@ theorem C20_merge_pairs (kps r : List (SSet × List Nat)) (h : mergeScripts kps 
 example : (mergeScripts [(["A", "B"], [0]), (["C", "D"], [1, 5]), (["B", "C"], [2])]).toOption = some [(["A", "B", "C", "D"], [0, 1, 5, 2])] := by
   decide
 
+/-! ### a key's pairs land in the merged bucket that contains the key -/
+
+theorem sdisjoint_iff (a b : SSet) : sdisjoint a b = true ↔ ∀ x ∈ a, x ∉ b := by
+  simp [sdisjoint]
+
+theorem pourInto_mono (b : SSet) (ps : List Nat) (acc : List (SSet × List Nat)) :
+    ∀ e ∈ acc, ∃ e' ∈ pourInto b ps acc, e'.1 = e.1 ∧ ∀ p ∈ e.2, p ∈ e'.2 := by
+  intro e he
+  refine ⟨if e.1 == b then (e.1, e.2 ++ ps) else e, mem_map.mpr ⟨e, he, rfl⟩, ?_⟩
+  by_cases h : (e.1 == b) = true
+  · simp only [h, if_true, true_and]
+    intro p hp; exact mem_append_left _ hp
+  · simp [h]
+
+theorem pourInto_lands (b : SSet) (ps : List Nat) (acc : List (SSet × List Nat)) (hb : b ∈ acc.map (·.1)) :
+    ∃ e' ∈ pourInto b ps acc, e'.1 = b ∧ ∀ p ∈ ps, p ∈ e'.2 := by
+  obtain ⟨e, he, heq⟩ := mem_map.mp hb
+  refine ⟨(e.1, e.2 ++ ps), mem_map.mpr ⟨e, he, ?_⟩, heq, fun p hp => mem_append_right _ hp⟩
+  have : (e.1 == b) = true := by simp [heq]
+  simp [this]
+
+theorem reassign_mono (sets : List SSet) (kps acc r : List (SSet × List Nat)) (h : reassign sets acc kps = .ok r) :
+    ∀ e ∈ acc, ∃ e' ∈ r, e'.1 = e.1 ∧ ∀ p ∈ e.2, p ∈ e'.2 := by
+  induction kps generalizing acc with
+  | nil =>
+    simp only [reassign] at h
+    cases h
+    intro e he; exact ⟨e, he, rfl, fun _ hp => hp⟩
+  | cons e0 rest ih =>
+    obtain ⟨k, ps⟩ := e0
+    simp only [reassign] at h
+    cases hf : reassignOne sets k with
+    | none => rw [hf] at h; cases h
+    | some b =>
+      rw [hf] at h
+      have h' : reassign sets (pourInto b ps acc) rest = .ok r := h
+      intro e he
+      obtain ⟨e1, he1, hk1, hp1⟩ := pourInto_mono b ps acc e he
+      obtain ⟨e2, he2, hk2, hp2⟩ := ih _ h' e1 he1
+      exact ⟨e2, he2, hk2.trans hk1, fun p hp => hp2 p (hp1 p hp)⟩
+
+theorem reassign_lands (sets : List SSet) (kps acc r : List (SSet × List Nat)) (hk : acc.map (·.1) = sets)
+    (h : reassign sets acc kps = .ok r) :
+    ∀ e ∈ kps, ∀ b, reassignOne sets e.1 = some b → ∃ e' ∈ r, e'.1 = b ∧ ∀ p ∈ e.2, p ∈ e'.2 := by
+  induction kps generalizing acc with
+  | nil => intro e he; cases he
+  | cons e0 rest ih =>
+    obtain ⟨k, ps⟩ := e0
+    simp only [reassign] at h
+    cases hf : reassignOne sets k with
+    | none => rw [hf] at h; cases h
+    | some b0 =>
+      rw [hf] at h
+      have h' : reassign sets (pourInto b0 ps acc) rest = .ok r := h
+      intro e he b hb
+      rcases mem_cons.mp he with rfl | he
+      · simp only at hb
+        rw [hf] at hb
+        cases hb
+        have hbm : b0 ∈ acc.map (·.1) := hk ▸ mem_of_find?_eq_some hf
+        obtain ⟨e1, he1, hk1, hp1⟩ := pourInto_lands b0 ps acc hbm
+        obtain ⟨e2, he2, hk2, hp2⟩ := reassign_mono _ _ _ _ h' e1 he1
+        exact ⟨e2, he2, hk2.trans hk1, fun p hp => hp2 p (hp1 p hp)⟩
+      · exact ih _ ((pourInto_keys b0 ps acc).trans hk) h' e he b hb
+
+theorem pairwise_forall_symm {α} {R : α → α → Prop} (hs : ∀ a b, R a b → R b a) (l : List α) (h : l.Pairwise R) :
+    ∀ a ∈ l, ∀ b ∈ l, a ≠ b → R a b := by
+  induction l with
+  | nil => intro a ha; cases ha
+  | cons x r ih =>
+    obtain ⟨h1, h2⟩ := pairwise_cons.mp h
+    intro a ha b hb hab
+    rcases mem_cons.mp ha with hax | har <;> rcases mem_cons.mp hb with hbx | hbr
+    · exact absurd (hax.trans hbx.symm) hab
+    · rw [hax]; exact h1 b hbr
+    · rw [hbx]; exact hs _ _ (h1 a har)
+    · exact ih h2 a har b hbr hab
+
+/-- among pairwise disjoint buckets, the first one that meets a key `k` is THE bucket containing `k` -/
+theorem reassignOne_contains (sets : List SSet) (hd : sets.Pairwise (fun a b => sdisjoint b a = true))
+    (k b0 b : SSet) (hb0 : b0 ∈ sets) (hsub : ∀ x ∈ k, x ∈ b0) (hf : reassignOne sets k = some b) : b = b0 := by
+  have hbm : b ∈ sets := mem_of_find?_eq_some hf
+  have hmeet : sdisjoint b k = false := by simpa using find?_some hf
+  have : ∃ x ∈ b, x ∈ k := by
+    simp only [sdisjoint, all_eq_false] at hmeet
+    obtain ⟨x, hx, hc⟩ := hmeet
+    exact ⟨x, hx, by simpa using hc⟩
+  obtain ⟨x, hxb, hxk⟩ := this
+  have hxb0 := hsub x hxk
+  apply Classical.byContradiction
+  intro hne
+  have hsym : ∀ a c : SSet, sdisjoint c a = true → sdisjoint a c = true := by
+    intro a c h
+    rw [sdisjoint_iff] at h ⊢
+    intro y hy hyc; exact h y hyc hy
+  have hall := pairwise_forall_symm (R := fun a c : SSet => sdisjoint c a = true) (fun a c h => hsym a c h) sets hd
+  have := hall b0 hb0 b hbm (fun h => hne h.symm)
+  exact (sdisjoint_iff b b0).mp this x hxb hxb0
+
+/-- **mergeScripts puts a key's pairs where the key's scripts are**: whenever it returns, every non-empty input key is
+contained in the key of ONE result bucket and that bucket holds all of the key's pairs - for every input. -/
+theorem C20_merge_lands (kps r : List (SSet × List Nat)) (h : mergeScripts kps = .ok r)
+    (e : SSet × List Nat) (he : e ∈ kps) (hne : e.1.isEmpty = false) :
+    ∃ b ∈ r, (∀ x ∈ e.1, x ∈ b.1) ∧ ∀ p ∈ e.2, p ∈ b.2 := by
+  have hkeys : e.1 ∈ kps.map (·.1) := mem_map.mpr ⟨e, he, rfl⟩
+  obtain ⟨b0, hb0, hsub⟩ := C20_merge_cover _ e.1 hkeys hne
+  have hsome := reassignOne_isSome _ e.1 hkeys hne
+  obtain ⟨b, hb⟩ := Option.isSome_iff_exists.mp hsome
+  have hbb0 := reassignOne_contains _ (C20_merge_disjoint _) e.1 b0 b hb0 hsub hb
+  unfold mergeScripts at h
+  obtain ⟨e', he', hk', hp'⟩ := reassign_lands _ kps _ r (by simp [Function.comp_def]) h e he b hb
+  refine ⟨e', he', ?_, hp'⟩
+  rw [hk', hbb0]; exact hsub
+
+theorem sdisjoint_symm (a c : SSet) (h : sdisjoint c a = true) : sdisjoint a c = true := by
+  rw [sdisjoint_iff] at h ⊢
+  intro y hy hyc; exact h y hyc hy
+
+/-- **mergeScripts meets its whole specification** (`holdsMerge`, the predicate the correspondence evaluates on the code's
+output): whenever it returns - i.e. whenever no key is empty - the result buckets are pairwise disjoint, hold only scripts
+of the input, every input key lies inside one bucket that holds all its pairs, and the pairs are a permutation of the
+input's.  For every input, of any size and in any order. -/
+theorem C20_merge_holds (kps r : List (SSet × List Nat)) (h : mergeScripts kps = .ok r) : holdsMerge kps r = true := by
+  obtain ⟨hkeys, hperm⟩ := C20_merge_pairs kps r h
+  have hd := C20_merge_disjoint (kps.map (·.1))
+  rw [← hkeys, pairwise_map] at hd
+  simp only [holdsMerge, Bool.and_eq_true, decide_eq_true_eq, all_eq_true, any_eq_true, Bool.or_eq_true,
+    contains_iff_mem, isPerm_iff]
+  refine ⟨⟨⟨?_, ?_⟩, ?_⟩, hperm⟩
+  · refine hd.imp ?_
+    intro a b hab
+    have := sdisjoint_symm _ _ hab
+    simpa [sdisjoint] using this
+  · intro b hb x hx
+    have hbm : b.1 ∈ mergeSets (kps.map (·.1)) := hkeys ▸ mem_map.mpr ⟨b, hb, rfl⟩
+    obtain ⟨k, hk, hxk⟩ := C20_merge_sound _ b.1 hbm x hx
+    obtain ⟨e, he, rfl⟩ := mem_map.mp hk
+    exact ⟨e, he, hxk⟩
+  · intro e he
+    cases hemp : e.1.isEmpty with
+    | true => exact Or.inl rfl
+    | false =>
+      right
+      obtain ⟨b, hb, h1, h2⟩ := C20_merge_lands kps r h e he hemp
+      exact ⟨b, hb, h1, h2⟩
+
+/-- non-vacuity of `C20_merge_holds`: the three-bucket chain returns, so the theorem applies to it -/
+example : holdsMerge [(["A", "B"], [0]), (["C", "D"], [1]), (["B", "C"], [2])] [(["A", "B", "C", "D"], [0, 1, 2])] = true :=
+  C20_merge_holds _ _ (by rfl)
+
 end Ufo2ft.C20
